@@ -1,0 +1,54 @@
+//go:build verif
+
+// Contracts for the deductive verifier under /verif (comment-only file: it
+// adds no code; compiled only with -tags verif).
+package provisioning
+
+// ---- C16: a plan is applied only under the pipeline lock, only if it is still
+// ---- fresh, and a running pipeline is touched only with authorisation ---------
+
+//verif:def planGuards(hash) = called("(*pipelineLocks).Lock") && count("$result.provisioning.(*pipelineLocks).Lock.0") == 0 && succeeded("(*Service).Plan") && result_of("(*Service).Plan", 0).Hash == hash && len(result_of("(*Service).Plan", 0).Changes) > 0
+
+//verif:func (Diff).Empty(d) (r)
+//verif:ensures r == (len(d.Changes) == 0)
+//verif:pure
+
+//verif:func isRunningStatus(status) (r)
+//verif:ensures[table] r == (status == StatusRunning || status == StatusRecovering || status == StatusDegraded)
+//verif:pure
+
+//verif:func (*Service).ApplyPlan(s, ctx, desired, hash) (d, err)
+//verif:assume locksInv(s.pipelineLocks) because "NewService builds pipelineLocks with newPipelineLocks (proved) and only pipelineLocks.Lock (proved to preserve it) touches the map"
+//verif:call[fresh-locked-stopped] (*Service).transactionalImport requires planGuards(hash) && succeeded("(*Service).isRunning") && !result_of("(*Service).isRunning", 0)
+//verif:ensures[import-at-most-once] count("(*Service).transactionalImport") <= 1
+//verif:ensures[unlocks] called("(*pipelineLocks).Lock")
+
+//verif:func (*Service).ApplyPlanLive(s, ctx, desired, hash, allowRestartOnRunning) (d, err)
+//verif:assume locksInv(s.pipelineLocks) because "NewService builds pipelineLocks with newPipelineLocks (proved) and only pipelineLocks.Lock (proved to preserve it) touches the map"
+//verif:call[import-guards] (*Service).transactionalImport requires planGuards(hash) && succeeded("(*Service).isRunning") && (!running || allowRestartOnRunning && succeeded("LifecycleService.StopAndWait"))
+//verif:call[inplace-guards] (*Service).applyInPlace requires planGuards(hash) && running && allowRestartOnRunning && result_of("(Diff).LiveEligible", 0) && succeeded("(*Service).Export")
+//verif:call[stop-guards] LifecycleService.StopAndWait requires planGuards(hash) && running && allowRestartOnRunning
+//verif:call[start-only-after-import] LifecycleService.Start requires planGuards(hash) && running && allowRestartOnRunning && succeeded("LifecycleService.StopAndWait") && succeeded("(*Service).transactionalImport")
+//verif:ensures[unauthorised-untouched] !allowRestartOnRunning ==> !called("LifecycleService.StopAndWait") && !called("(*Service).applyInPlace") && !called("LifecycleService.Start")
+
+//verif:func (*Service).applyInPlace(s, ctx, desired, oldConfig, diff) (ok, err)
+//verif:call[import-before-swap] LifecycleService.ReconfigureProcessor requires succeeded("(*Service).transactionalImport")
+//verif:call[rollback-on-swap-failure] (*Service).rollbackInPlace requires succeeded("(*Service).transactionalImport") && called("LifecycleService.ReconfigureProcessor") && sameWindow(arg4, swapped, 0, len(swapped))
+//verif:ensures[swap-error-rolls-back] err != nil && succeeded("(*Service).transactionalImport") ==> called("(*Service).rollbackInPlace")
+//verif:ensures[ok-means-imported] ok ==> succeeded("(*Service).transactionalImport") && err == nil
+
+//verif:func (*Service).rollbackInPlace(s, ctx, pipelineID, oldConfig, swapped)
+//verif:call[restore-before-reswap] LifecycleService.ReconfigureProcessor requires succeeded("(*Service).transactionalImport")
+
+//verif:def locksInv(p) = p != nil && p.locks != nil && forall k :: has(p.locks, k) ==> p.locks[k] != nil
+
+//verif:func (*pipelineLocks).Lock(p, id) (unlock)
+//verif:requires locksInv(p)
+//verif:ensures[inv] locksInv(p)
+//verif:ensures[returns-unlock] unlock != nil
+//verif:ensures[one-mutex-per-id] has(p.locks, id) && p.locks[id] != nil && (old(has(p.locks, id)) ==> p.locks[id] == old(p.locks[id]))
+//verif:ensures[others-untouched] forall k :: k != id ==> has(p.locks, k) == old(has(p.locks, k)) && p.locks[k] == old(p.locks[k])
+//verif:ensures[locked] count("(*Mutex).Lock") == 2 && count("(*Mutex).Unlock") == 1
+
+//verif:func newPipelineLocks() (p)
+//verif:ensures locksInv(p)
